@@ -85,3 +85,17 @@ Definition s_move (m : smap) (k1 k2 x : bytes) : smap * bool :=
       (fst (s_srem m1 k1 [x]), true)
   | _, _ => (m, false)
   end.
+
+Definition sinter_l (a b : list bytes) : list bytes := filter (fun x => bmem x b) a.
+Definition s_inter (m : smap) (k1 k2 : bytes) : option (list bytes) :=
+  match alookup m k1, alookup m k2 with
+  | Some a, Some b => Some (bsort (sinter_l a b))
+  | _, _ => None
+  end.
+
+(** Set.SPop(key) with the popped member as oracle input *)
+Definition s_spop (m : smap) (k : bytes) (choice : bytes) : option smap :=
+  match alookup m k with
+  | Some l => if bmem choice l then Some (aset m k (bremove choice l)) else None
+  | None => None
+  end.
